@@ -25,11 +25,37 @@ from .. import spec
 MOD = "corankco.algorithms.pickaperm.pickaperm"
 
 
+_SHARED = {}
+
+
+def _runtime(proj: Project):
+    """One runtime and ONE PickAPerm instance per project: worlds are evaluated on the same algorithm object, as a user
+    re-using an instance would (state kept on the instance between calls would show)."""
+    key = id(proj)
+    if key not in _SHARED:
+        from ..engines.instances import Runtime
+        from ..engines.stdlib import install
+        rt = install(Runtime(proj))
+        rt.funcs["print"] = lambda ev, call: None
+        cls = proj.cls(MOD, "PickAPerm")
+        _SHARED.clear()
+        _SHARED[key] = (rt, rt.new(cls, [], {}))
+    return _SHARED[key]
+
+
+def _feature(att, member: str):
+    for k, v in (att or {}).items():
+        if getattr(k, "member", None) == member or str(k).endswith(member):
+            return v
+    return None
+
+
 def _world(proj: Project, comp, scores: List[float], complete: bool, equiv: bool, at_most_one: bool):
     n = len(scores)
     plain = [f"R{i}" for i in range(n)]
     unified = [f"U{i}" for i in range(n)]
     log = {"scored": [], "equiv_args": [], "scheme_for_factory": []}
+    rt, me = _runtime(proj)
 
     def is_eq(ev, call, a, kw):
         log["equiv_args"].append(a)
@@ -58,17 +84,18 @@ def _world(proj: Project, comp, scores: List[float], complete: bool, equiv: bool
             kw[names[i]] = ev.ev(a)
         captured.update(kw)
         return "CONSENSUS"
-    funcs = {"KemenyComputingFactory": factory, "Consensus": consensus,
-             "ScoringScheme.get_unifying_scoring_scheme": lambda ev, call: "UNIFYING",
-             ".get_full_name": lambda ev, call: "NAME"}
-    evl = Evaluator({}, funcs)
-    evl.attr_fallback = lambda d: d if d.startswith("ConsensusFeature.") else None
+    rt.funcs["KemenyComputingFactory"] = factory
+    rt.funcs["Consensus"] = consensus
+    rt.funcs["ScoringScheme.get_unifying_scoring_scheme"] = lambda ev, call: "UNIFYING"
     try:
-        ret = evl.call_user(comp.node, [Sym("SELF"), ds, scheme, at_most_one])
+        ret = rt.invoke(comp, [me, ds, scheme, at_most_one], {}, None)
     except AbsRaise as r:
         return ("raise", r.exc_name.split(".")[-1]), captured, log, ds, scheme
     except Unsupported as exc:
         raise AnalysisError(f"{comp.qualname}: unsupported construct line {getattr(exc.node, 'lineno', '?')}: {exc}")
+    finally:
+        for k in ("KemenyComputingFactory", "Consensus", "ScoringScheme.get_unifying_scoring_scheme"):
+            rt.funcs.pop(k, None)
     return ("ok", ret), captured, log, ds, scheme
 
 
@@ -93,9 +120,9 @@ def check_scan(res: Result, proj: Project, rule: str = "K2"):
                     ok = isinstance(got, list) and len(got) == 1 and got[0] in minimal
                 else:
                     ok = isinstance(got, list) and sorted(got) == sorted(minimal)
-                ok = ok and st == ("ok", "CONSENSUS") and att.get("ConsensusFeature.KEMENY_SCORE") == min(prof)
+                ok = ok and st == ("ok", "CONSENSUS") and _feature(att, "KEMENY_SCORE") == min(prof)
                 if not ok and bad is None:
-                    bad = (prof, amo, complete, got, att.get("ConsensusFeature.KEMENY_SCORE"), minimal)
+                    bad = (prof, amo, complete, got, _feature(att, "KEMENY_SCORE"), minimal)
                 ctx_ok = cap.get("dataset") is ds and cap.get("scoring_scheme") is scheme \
                     and all(len(a) == 2 and a[1] is ds for a in log["scored"]) \
                     and all(len(a) == 1 and a[0] is scheme for a in log["scheme_for_factory"]) \
@@ -122,7 +149,7 @@ def run(ctx) -> Result:
     res.rule("K2", "argmin scan over all weak orderings of candidate scores", 1)
     res.rule("K3", "candidates scored against the caller's dataset and scheme; Consensus carries them", 1)
     res.rule("K4", "equivalence test reads both penalty vectors (shared with C19/G3)", 4)
-    res.rule("K5", "unified rankings = input buckets + one last bucket of exactly the missing elements", 3)
+    res.rule("K5", "unified rankings = input buckets + one last bucket of exactly the missing elements", 4)
     # K1
     for complete, equiv, want in ((True, True, "ok"), (True, False, "ok"), (False, True, "ok"), (False, False, "raise")):
         st, cap, log, ds, scheme = _world(proj, comp, [2.0, 1.0], complete, equiv, True)
@@ -149,54 +176,61 @@ def run(ctx) -> Result:
 
 
 def check_unified(res: Result, proj: Project, rule: str):
-    """Dataset.unified_rankings evaluated abstractly on small datasets."""
-    ds_cls = proj.cls("corankco.dataset", "Dataset")
-    f = proj.method(ds_cls, "unified_rankings")
+    """Dataset.unified_rankings evaluated on real instances, also after mutations of the same dataset object (a
+    cached result must not go stale)."""
+    from .datamodel import World
+    w = World(proj)
+    f = proj.method(w.D, "unified_rankings")
     res.saw(f)
+
+    def want_for(raws):
+        uni = set()
+        for r in raws:
+            for b in r:
+                uni |= b
+        return [[set(b) for b in r] + ([uni - (set().union(*r) if r else set())] if uni - (set().union(*r) if r else set()) else [])
+                for r in raws]
+
+    def check(d, label_raws):
+        cur = w.raw_dataset(d)
+        st, ur = w.safe("unified_rankings", w.call, d, "unified_rankings")
+        want = want_for(cur)
+        probs = []
+        if st != "ok":
+            return [f"raised {ur}"]
+        got = [w.raw_ranking(r) for r in ur]
+        if got != want:
+            probs.append(f"unified rankings {got}, expected {want}")
+        for i, r in enumerate(ur):
+            probs.extend(w.ranking_problems(r, f"unified ranking#{i}"))
+            if any(r is x for x in d.attrs["_rankings"]):
+                probs.append("a unified ranking is the dataset's own Ranking object")
+        if w.raw_dataset(d) != cur:
+            probs.append("the dataset's own rankings were modified")
+        return probs
     cases = [
-        ("incomplete", ["a", "b", "c", "d"], [[{"a"}, {"b", "c"}], [{"d"}], [{"a", "b", "c", "d"}], []]),
-        ("complete", ["a", "b"], [[{"a"}, {"b"}], [{"b", "a"}]]),
-        ("single-missing", ["a", "b", "c"], [[{"c"}, {"a"}]]),
+        ("incomplete", [[{"a"}, {"b", "c"}], [{"d"}], [{"a", "b", "c", "d"}], []]),
+        ("complete", [[{"a"}, {"b"}], [{"b", "a"}]]),
+        ("single-missing", [[{"c"}, {"a"}], [{"b"}]]),
     ]
-    for label, elems, rankings in cases:
-        robjs = []
-        for r in rankings:
-            buckets = [set(b) for b in r]
-            robjs.append(Obj("RANKING", {"buckets": buckets, "domain": set().union(*r) if r else set()}))
-        created = []
-
-        def ranking_ctor(ev, call, created=created):
-            b = ev.ev(call.args[0])
-            o = Obj("NEW", {"buckets": b, "domain": set().union(*b) if b else set()})
-            created.append(o)
-            return o
-
-        def deepcopy(ev, call):
-            v = ev.ev(call.args[0])
-            return _deep(v)
-        me = Obj("DS", {"rankings": robjs, "_rankings": robjs, "_mapping_element_id": {e: i for i, e in enumerate(elems)},
-                        "mapping_elem_id": {e: i for i, e in enumerate(elems)}, "universe": set(elems)})
-        evl = Evaluator({}, {"Ranking": ranking_ctor, "copy.deepcopy": deepcopy, "deepcopy": deepcopy})
-        try:
-            ret = evl.call_user(f.node, [me])
-        except Unsupported as exc:
-            raise AnalysisError(f"{f.qualname}: unsupported construct line {getattr(exc.node, 'lineno', '?')}: {exc}")
-        want = []
-        for r in rankings:
-            dom = set().union(*r) if r else set()
-            miss = set(elems) - dom
-            want.append([set(b) for b in r] + ([miss] if miss else []))
-        got = None
-        fresh = False
-        if isinstance(ret, list) and all(isinstance(o, Obj) for o in ret):
-            got = [o.attrs["buckets"] for o in ret]
-            # every returned ranking is a freshly *constructed* Ranking (so positions are computed from all buckets)
-            fresh = all(o in created for o in ret)
-        untouched = [o.attrs["buckets"] for o in robjs] == [[set(b) for b in r] for r in rankings]
-        res.check(got == want and fresh and untouched, rule, f"Dataset.unified_rankings:{label}", f.loc(),
+    for label, raws in cases:
+        d = w.dataset(raws)
+        probs = check(d, raws)
+        res.check(not probs, rule, f"Dataset.unified_rankings:{label}", f.loc(),
                   ok_detail="buckets kept in order, one last bucket with exactly the missing elements, new Ranking objects",
-                  bad_detail=f"rankings {rankings} over {elems}: got {got!r} (constructed anew: {fresh}, input untouched: "
-                             f"{untouched}), expected {want!r}")
+                  bad_detail=f"rankings {raws}: " + "; ".join(probs[:2]))
+    # same object, unify -> mutate -> unify again
+    hist = [("remove_empty_rankings", []), ("remove_elements", [{w.element("d")}])]
+    d = w.dataset([[{"a"}, {"b", "c"}], [], [{"d"}], [{"c"}, {"a"}]])
+    probs = check(d, None)
+    for op, args in hist:
+        st, _ = w.safe(op, w.call, d, op, *args)
+        p2 = check(d, None)
+        if p2:
+            probs.append(f"after {op}: {p2[0]}")
+    res.check(not probs, rule, "Dataset.unified_rankings:after-mutations-of-the-same-dataset", f.loc(),
+              ok_detail="recomputed from the current rankings after remove_empty_rankings / remove_elements",
+              bad_detail="; ".join(probs[:2]))
 
 
 def _deep(v):
